@@ -301,6 +301,33 @@ theorem C11_thread_tables (ops : List TOp) (hv : HandlesValid ops) :
   have hget : (trun ops).procs[p]? = some (trun ops).procs[p] := List.getElem?_eq_getElem hlen
   rw [hget, inv.procs p _ hget, prun_proc]
 
+/-- The statement's first two clauses for the tables *inside the profile*: after any history of public calls with
+valid handles and non-empty ranges, the kernel table and every process's table hold exactly the mappings that are
+live in their own call history (added, and not ended since by a clear of that process, a remove of its start there,
+or an intersecting add there — calls addressed to other processes or to the kernel table never end it), and no two
+mappings stored in one table overlap. -/
+theorem C11_profile_tables_live (ops : List TOp) (hv : HandlesValid ops)
+    (hne : ∀ op ∈ mappingOps ops, POpNonEmpty op) :
+    ((∀ m, m ∈ (trun ops).kernel.map ↔ ∃ pre post, LiveAt (kernelOps (mappingOps ops)) pre post m) ∧
+      ∀ m ∈ (trun ops).kernel.map, ∀ n ∈ (trun ops).kernel.map, m ≠ n → m.e ≤ n.s ∨ n.e ≤ m.s) ∧
+    ∀ p tb, (trun ops).procs[p]? = some tb →
+      (∀ m, m ∈ tb.map ↔ ∃ pre post, LiveAt (procOps p (mappingOps ops)) pre post m) ∧
+      ∀ m ∈ tb.map, ∀ n ∈ tb.map, m ≠ n → m.e ≤ n.s ∨ n.e ≤ m.s := by
+  obtain ⟨hk, hn, hp⟩ := C11_thread_tables ops hv
+  have hkok := kernelOps_nonempty (mappingOps ops) hne
+  refine ⟨?_, ?_⟩
+  · rw [hk]
+    exact ⟨C11_live _ hkok, (C11_nonoverlap _ hkok).2⟩
+  · intro p tb htb
+    have hlt : p < procCount ops := by
+      rw [← hn]; exact (List.getElem?_eq_some_iff.mp htb).1
+    have := hp p hlt
+    rw [htb] at this
+    simp only [Option.some.injEq] at this
+    subst this
+    have hpok := procOps_nonempty p (mappingOps ops) hne
+    exact ⟨C11_live _ hpok, (C11_nonoverlap _ hpok).2⟩
+
 /-- A thread's owner never changes: later calls of any kind leave `threadOwner` of an existing handle alone. -/
 theorem C11_owner_stable (ops more : List TOp) (t p : Nat) (h : threadOwner ops t = some p) :
     threadOwner (ops ++ more) t = some p := by
